@@ -91,25 +91,27 @@ func NewWordList(list []string) (*WordList, error) {
 	// remove the Capitalized one from the list
 	//
 	// This pass also assumes that everything in unique is "true"
-	unCapable := 0
 	for w := range unique {
 		if unique[w] { // it may have been deleted since range was computed
 			cap := strings.Title(w)
 			if unique[cap] {
 				if cap != w { // w is "polish"
 					delete(unique, cap) // delete won't change what is in range
-				} else {
-					unCapable++
 				}
 			}
 		}
 	}
 
 	// third pass, because life sucks
+	// Words that capitalization does not change are counted here, among the
+	// words we keep, so that the count does not depend on map iteration order
+	unCapable := 0
 	var ourWords []string
 	for w := range unique {
 		ourWords = append(ourWords, w)
-
+		if strings.Title(w) == w {
+			unCapable++
+		}
 	}
 
 	if len(list) > len(ourWords) {
